@@ -35,7 +35,32 @@ def sec12b():
         out.append("| %s | %d: %s | %s |" % (c["id"], len(c["theorems"]), th, rp.replace("|", "\\|")))
     return "\n".join(out)
 
-gens = {"13": sec13, "15": sec15, "12b": sec12b}
+
+def sec12a():
+    """per-property status table + the props' own explanation / partial texts (always current)"""
+    seeds = {}
+    for d in glob.glob(R + "/seeded/*/meta.json"):
+        m = json.load(open(d)); seeds[m["breaks_property"]] = seeds.get(m["breaks_property"], 0) + 1
+    out = ["| id | level | registered theorems | harness sub-commands (real code) | repairs in /repo | open findings | seeded changes kept |\n|---|---|---|---|---|---|---|"]
+    for p in sorted(glob.glob(R + "/props/C*.json")):
+        c = json.load(open(p)); i = c["id"]
+        nfix = sum(1 for x in kf["fixed"] if ("property=%s " % i) in x)
+        nopen = sum(1 for f in kf["findings"] if f["property"] == i)
+        subs = [c["hx"]] + [e["hx"] for e in c.get("extra_hx", [])]
+        out.append("| %s | %s | %d | %s | %d | %d | %d |" % (i, c.get("level", ""), len(c["theorems"]), ", ".join("`hx %s`" % x for x in subs), nfix, nopen, seeds.get(i, 0)))
+    out.append("")
+    for p in sorted(glob.glob(R + "/props/C*.json")):
+        c = json.load(open(p))
+        out.append("**%s.** %s" % (c["id"], c.get("explanation", "").strip()))
+        if c.get("partial"):
+            out.append("")
+            out.append("*Covered only under a guard, only by the correspondence / an oracle, or not at all:*")
+            for x in c["partial"]:
+                out.append("- " + x.strip().replace("\n", " "))
+        out.append("")
+    return "\n".join(out)
+
+gens = {"13": sec13, "15": sec15, "12b": sec12b, "12a": sec12a}
 s = open(R + "/DESIGN.md").read()
 for k, f in gens.items():
     a, b = "<!-- GEN:%s -->" % k, "<!-- /GEN:%s -->" % k
